@@ -343,7 +343,6 @@ crate::harnesses! {
     c20_mono_rice (quick, "len_rice", "k in 0..=63 symbolic, n>>k < 2^40") => monotone::<_, {C_RICE}, 0, 63, 64>;
     c20_mono_golomb (quick, "len_golomb", "b in 1..=16 symbolic, n<2^16") => monotone::<_, {C_GOLOMB}, 1, 16, 16>;
     c20_mono_golomb_b64 (thorough, "len_golomb", "b in 1..=64 symbolic, n<2^32") => monotone::<_, {C_GOLOMB}, 1, 64, 32>;
-    c20_mono_golomb_wide (thorough, "len_golomb", "b in 1..=4096 symbolic, n<2^40") => monotone::<_, {C_GOLOMB}, 1, 4096, 40>;
     c20_mono_minbin (quick, "len_minimal_binary", "u symbolic (any u64>=2), n+1<u") => monotone::<_, {C_MINBIN}, 2, {usize::MAX}, 64>;
     #[kani::unwind(8)]
     c20_piece_gamma (quick, "len of gamma", "length constant on each piece; n<=2^64-2, parameter 0..=0 symbolic") => piece_lemma::<_, {C_GAMMA}, 0, 0>;
@@ -418,12 +417,6 @@ crate::harnesses! {
     c20_fcp_first (quick, "FindChangePoints::next (first call)", "any constant function") => fcp_first;
     #[kani::unwind(9)]
     c20_fcp_exact_5 (thorough, "FindChangePoints::next from an arbitrary state", "symbolic step function (2 change points, symbolic values), gap to the next change point < 2^5") => fcp_exact::<_, 5, 64>;
-    #[kani::unwind(12)]
-    c20_fcp_exact_8 (thorough, "FindChangePoints::next from an arbitrary state", "symbolic step function (2 change points, symbolic values), gap to the next change point < 2^8") => fcp_exact::<_, 8, 64>;
-    #[kani::unwind(20)]
-    c20_fcp_exact_16 (thorough, "FindChangePoints::next from an arbitrary state", "symbolic step function (2 change points, symbolic values), gap to the next change point < 2^16") => fcp_exact::<_, 16, 64>;
-    #[kani::unwind(36)]
-    c20_fcp_exact_32 (thorough, "FindChangePoints::next from an arbitrary state", "symbolic step function, gap < 2^32") => fcp_exact::<_, 32, 64>;
     #[kani::unwind(67)]
     c20_fcp_terminates (quick, "FindChangePoints::next from an arbitrary state", "function constant from current on, any current > 0 (full width)") => fcp_terminates;
     #[kani::unwind(12)]
@@ -436,4 +429,6 @@ crate::harnesses! {
     c20_fcp_high_63 (quick, "FindChangePoints::next from a state around 2^63", "current = 2^63 - 512 + c, c < 1024; one change point at distance < 64: no overflow, no invented point") => fcp_high::<_, {(1u64 << 63) - 512}>;
     #[kani::unwind(10)]
     c20_fcp_high_64 (quick, "FindChangePoints::next from a state next to 2^64", "current = 2^64 - 2048 + c, c < 1024; one change point at distance < 64: no overflow, no invented point") => fcp_high::<_, {u64::MAX - 2047}>;
+    #[kani::unwind(16)]
+    c20_fcp_exact_12_cur0 (thorough, "FindChangePoints::next from the state after the first item", "symbolic step function, current = 0, first change point < 2^12") => fcp_exact::<_, 12, 0>;
 }
